@@ -453,5 +453,102 @@ def replay(prop, path, keep):
     return run_check(prop, r.get("tier", "quick"), int(r.get("seed", 1)), keep, only=(r["stage"], sess))
 
 
+def _corrupt(trace_dir, pred, mutate):
+    """rewrites the first record (over all shards) for which pred holds with mutate(rec); returns its session id"""
+    for k in range(L.NSHARDS):
+        path = os.path.join(trace_dir, "shard%d.ndjson" % k)
+        lines = open(path).read().splitlines()
+        for i, ln in enumerate(lines):
+            r = json.loads(ln)
+            if pred(r):
+                mutate(r)
+                lines[i] = json.dumps(r)
+                with open(path, "w") as f:
+                    f.write("\n".join(lines) + "\n")
+                return r["sess"]
+    return None
+
+
 def selftest():
+    """Binding self-test (DESIGN.md section 7): for each trace family a small real trace must be accepted, and the same trace
+    with ONE recorded field corrupted must be rejected for exactly that session.  A judge that accepts a corrupted trace
+    is decoration: setup fails."""
+    sc = L.Scratch()
+    bad = []
+    try:
+        jdv = L.build_harness(sc)
+        bins = L.build_binaries(sc)
+
+        def first_bool(r, key):
+            return r.get("op") == key and r.get("res", {}).get("st") == "ok" and r["res"].get("bool") is True
+
+        def flip_res_bool(r):
+            r["res"]["bool"] = False
+
+        def bump_doc(r):
+            r["res"]["doc"] = {"k": "n", "v": 4242}
+
+        cases = [
+            ("dp", "TraceDP", ["C01"], dict(items=[item("scalarr_4_3", NONE, 0.02)]), "C01 Equals result",
+             lambda r: first_bool(r, "Equals"), flip_res_bool),
+            ("dp", "TraceDP", ["C03"], dict(items=[item("scalarr_4_3", NONE, 0.02)]), "C03 patched document",
+             lambda r: r.get("op") == "PatchStep" and r["res"].get("st") == "ok", bump_doc),
+            ("dp", "TraceDP", ["C06"], dict(items=[item("scalarr_4_3", NONE, 0.02)]), "C06 hunk index",
+             lambda r: r.get("op") == "Diff" and len(r.get("diff", [])) >= 1 and r["diff"][0]["path"] and r["diff"][0]["path"][-1]["k"] == "idx",
+             lambda r: r["diff"][0]["path"][-1].__setitem__("v", r["diff"][0]["path"][-1]["v"] + 1)),
+            ("dp", "TraceDP", ["C07"], dict(items=[item("obj_2", NONE, 0.05)]), "C07 duplicated hunk",
+             lambda r: r.get("op") == "Diff" and len(r.get("diff", [])) >= 1, lambda r: r["diff"].append(r["diff"][0])),
+            ("eq", "TraceEq", ["C04"], dict(items=[item("scalarr_4_3", SET, 0.02, False)]), "C04 Equals result",
+             lambda r: r.get("op") == "Eq" and r["ab"].get("bool") is False, lambda r: (r["ab"].__setitem__("bool", True), r["ba"].__setitem__("bool", True))),
+            ("tx", "TraceText", ["C02"], dict(items=[item("scalarr_4_3", NONE, 0.01)]), "C02 re-read diff",
+             lambda r: r.get("op") == "Read" and len(r.get("diff", [])) >= 1 and r["diff"][0]["add"], lambda r: r["diff"][0]["add"].pop()),
+            ("jp", "TraceJP", ["C09"], dict(items=[item("scalarr_4_3", NONE, 0.01, False, max=2)]), "C09 op path",
+             lambda r: r.get("op") == "RenderPatch" and any(o["op"] == "add" and o["path"] and o["path"][-1]["i"] >= 0 for o in r.get("ops", [])),
+             lambda r: [o["path"][-1].__setitem__("i", o["path"][-1]["i"] + 1) for o in r["ops"] if o["op"] == "add" and o["path"]][:1]),
+            ("mg", "TraceMerge", ["C11"], dict(items=[item("obj_2", MERGE, 0.03, False)]), "C11 merge patch",
+             lambda r: r.get("op") == "RenderMerge" and r["p"]["k"] == "O" and r["p"]["v"], lambda r: r.__setitem__("p", {"k": "O", "v": {}})),
+            ("mp", "TraceMerge", ["C12"], dict(items=[dict(family="mergedocs", opts=NONE, frac=0.02, void=False, nf=False)]), "C12 patched document",
+             lambda r: r.get("op") == "Apply" and r["res"].get("st") == "ok", bump_doc),
+            ("cr", "TraceCrash", ["C13"], dict(items=[], extra={"tier": "selftest"}), "C13 crash flag",
+             lambda r: r.get("op") == "Apply" and r["res"].get("st") == "err", lambda r: r["res"].__setitem__("st", "panic")),
+            ("api", "TraceApi", ["C15"], dict(items=[item("nestarr_2", NONE, max=2)], extra={"histories": "histories_2"}), "C15 live value",
+             lambda r: r.get("op") == "Call" and r["obs"]["d"], lambda r: r["obs"]["d"].pop()),
+            ("proc", "TraceCli", ["C14"], dict(items=[], extra={"frac": 0.01}), "C14 exit status",
+             lambda r: r.get("op") == "Proc" and r["proc"]["exit"] == 1, lambda r: r["proc"].__setitem__("exit", 0)),
+            ("ya", "TraceCarrier", ["C16"], dict(items=[dict(family="confusable", opts=NONE, frac=1.0, void=False, nf=False)]), "C16 delivered document",
+             lambda r: r.get("op") == "Ya" and r["yy"]["k"] == "A", lambda r: r.__setitem__("yy", {"k": "A", "v": []}) if r["yy"]["v"] else r.__setitem__("yy", {"k": "n", "v": 1})),
+            ("v1", "TraceV1", ["C17"], dict(items=[item("scalarr_4_3", NONE, 0.01)]), "C17 Equals result",
+             lambda r: first_bool(r, "Equals"), flip_res_bool),
+        ]
+        for n, (drv, module, prs, planx, what, pred, mut) in enumerate(cases):
+            tag = "self%d" % n
+            plan = dict(driver=drv, seed=1, table="plain", yaml_every=0, bins=bins, extra={})
+            plan.update(planx)
+            tr = L.run_driver(sc, jdv, plan, tag)
+            v = L.judge(sc, module, prs, tr, tag, constants=known_constants())
+            clean = [f for f in v["fail"] if f[1] in prs]
+            if clean:
+                bad.append("%s: the unchanged tree fails its own self-test trace: %s" % (what, clean[:2]))
+                continue
+            sess = _corrupt(tr["dir"], pred, mut)
+            if sess is None:
+                bad.append("%s: no record to corrupt (self-test plan too small)" % what)
+                continue
+            v2 = L.judge(sc, module, prs, tr, tag + "c", constants=known_constants())
+            failed = {f[0] for f in v2["fail"] if f[1] in prs}
+            known_before = {f[0] for f in v["known"] if f[1] in prs}
+            hit = failed | ({f[0] for f in v2["known"] if f[1] in prs} - known_before)
+            if sess not in hit:
+                bad.append("%s: corrupted session %d was ACCEPTED by %s" % (what, sess, module))
+            elif failed - {sess}:
+                bad.append("%s: corrupting session %d also failed sessions %s" % (what, sess, sorted(failed - {sess})[:3]))
+            else:
+                log("self-test ok: %s -> %s rejects exactly session %d" % (what, module, sess))
+    finally:
+        sc.close()
+    if bad:
+        for b in bad:
+            print("SELF-TEST FAILED:", b)
+        return 2
+    print("self-test: %d corrupted traces, each rejected for exactly the corrupted session" % len(cases))
     return 0
